@@ -48,6 +48,14 @@ def check_run(ctx, prog, y, tr, seed, case=None):
     tasks = {t['ord']: t for t in snap['tasks']}
     wf = snap['wfs'][0]
     hist = []
+    names = [t['name'] for t in tasks.values() if t['wf'] == wf['ord']]
+    if len(set(names)) < len(names):
+        # a task was activated more than once although the definition is of the single-activation class (a join that
+        # fails - an inbound route can no longer fire - dispatches its on-error clause at every refresh, the first
+        # time before its inbound context is evaluated: the C04 family "a join runs exactly once", not data flow):
+        # outside the class this stream is about
+        ctx.count('flow', 'skipped:task-activated-more-than-once')
+        return
     for t in tasks.values():
         ctx_stream.learn_paths(t['published'])
     for t in tasks.values():
